@@ -72,6 +72,7 @@ fn main() {
         "replay" => play::run_replay(&args),
         "fenmut" | "variants" => fenmut::run(&args),
         "search" => searchdrv::run(&args),
+        "cycles" => searchdrv::run_cycles(&args),
         "mobility" => mobility::run(&args),
         "tree" => tree::run(&args),
         other => {
